@@ -9,6 +9,7 @@ schedules the others.  The interpreter is therefore written in direct style.
 from __future__ import annotations
 
 import ast
+import collections
 import builtins as _builtins
 import enum
 import sys
@@ -82,6 +83,23 @@ class ContinueSig(Exception):
     pass
 
 
+class SuspendSig(Exception):
+    """raised by an `await` (contract kwarg await_hook, or awaiting a PENDING coroutine) on something that is still
+    pending: the enclosing coroutine does not run any further in this activation (no `finally` runs, exactly like a
+    suspended CPython coroutine).  Caught where the coroutine function was *called* (bodies of `async def` are executed
+    eagerly at the call): the call then evaluates to PENDING."""
+
+
+class PendingCoroutine:
+    """value of a call of an `async def` whose body suspended at an await (see SuspendSig)"""
+
+    def __repr__(self):
+        return 'PENDING'
+
+
+PENDING = PendingCoroutine()
+
+
 # ---------------------------------------------------------------------------
 # small z3 helpers
 # ---------------------------------------------------------------------------
@@ -102,6 +120,8 @@ def zint(v):
         return z3.IntVal(1 if v else 0)
     if isinstance(v, int):
         return z3.IntVal(int(v))
+    if isinstance(v, Unknown):
+        raise Unsupported(f'integer value of an uninterpreted value needed as a term: {v!r}')  # undecided, not an engine failure
     raise EngineError(f'not an int: {v!r}')
 
 
@@ -115,6 +135,10 @@ def zbool(v):
         return z3.BoolVal(v)
     if isinstance(v, z3.BoolRef):
         return v
+    if isinstance(v, Unknown):
+        # an uninterpreted value (skeleton profile, `Any`, a comparison the value domain cannot decide) where a truth
+        # value is needed as a term: not a verdict and not an engine failure -- the obligation / entry is undecided
+        raise Unsupported(f'truth value of an uninterpreted value needed as a term: {v!r}')
     raise EngineError(f'not a bool: {v!r}')
 
 
@@ -123,6 +147,8 @@ def zbytes(v):
         return v.t
     if isinstance(v, (bytes, bytearray)):
         return bytes_lit(bytes(v))
+    if isinstance(v, Unknown):
+        raise Unsupported(f'bytes value of an uninterpreted value needed as a term: {v!r}')  # undecided, not an engine failure
     raise EngineError(f'not bytes: {v!r}')
 
 
@@ -426,8 +452,16 @@ class Path:
         o = lv.options[i]
         from . import contracts as _C
 
+        first_new = self.next_oid
         v = self.cfg.fresh(self, o, lv.hint) if isinstance(o, _C.T) else self.import_native(o)
         self.lazy[lv.lid] = v
+        # objects of a lazily chosen alternative belong to the pre-state: the counter-model of the path is concretised
+        # from prestate['heap'] (replay / CPython cross-check), which was copied before this alternative was chosen
+        pre = getattr(self, 'prestate', None)
+        if pre is not None:
+            for oid in range(first_new, self.next_oid):
+                if oid in self.heap and oid not in pre['heap']:
+                    pre['heap'][oid] = self.heap[oid].clone()
         return v
 
     def decide(self, conds, why=''):
@@ -1471,6 +1505,8 @@ class Path:
 
     def ev_Await(self, n):
         v = self.eval(n.value)
+        if v is PENDING:
+            raise SuspendSig()  # awaiting a coroutine that is itself suspended
         return self.cfg.await_value(self, v, n)
 
     def ev_Starred(self, n):
@@ -1707,6 +1743,13 @@ class Path:
                 self.exec_block(f.node.body)
             except ReturnSig as r:
                 return r.value
+            except SuspendSig:
+                # (func_stack[0] is the pseudo activation of the entry, func_stack[1] the entry itself)
+                if isinstance(f.node, ast.AsyncFunctionDef) and len(self.func_stack) > 2:
+                    return PENDING  # the rest of the body belongs to a later activation
+                if len(self.func_stack) > 2:
+                    raise
+                raise Unsupported('the coroutine under contract suspends at an await on a pending awaitable')
             return None
         finally:
             self.func_stack.pop()
@@ -1833,8 +1876,8 @@ class Path:
             raise Unsupported(f'truth of {v!r}: {e}')
 
     def length(self, v):
-        if isinstance(v, (bytes, bytearray, str, tuple, list, dict, frozenset, set, range)):
-            return len(v)
+        if isinstance(v, (bytes, bytearray, str, tuple, list, dict, frozenset, set, range, collections.deque)):
+            return len(v)  # (a reflected native container, e.g. a class-level default: concrete, like a native list)
         if isinstance(v, Sym):
             if v.k == 'bytes' or (isinstance(v.k, tuple) and v.k[0] == 'seq'):
                 return mk_int(z3.Length(v.t))
